@@ -10,7 +10,7 @@ from harness import core
 from harness.checks import lifelib as L
 
 C09_KINDS = ['plain', 'body', 'form', 'raise', 'nf', 'm405', 'crash', 'json404', 'hdrs', 'badpath', 'badchunk', 'oversize',
-             'badchunk_json', 'oversize_json']
+             'badchunk_json', 'oversize_json', 'mutq', 'latin', 'badmp_json']
 C09_CONFIG = {'max_body_size': 1000}
 
 
@@ -204,6 +204,18 @@ def run_c08(chk):
             a = rng.randint(0, 700)
             b = rng.choice([5000, 5000, rng.randint(1, 900)])     # mostly: the other request runs to completion in between
             execute(reqs, [0] * a + [1] * b + [0] * 5000, line_files=lf, tag='line')
+        # twins: two clients sending the same kind of request (same error object, same cached parse, same route) with
+        # different data; the second is served completely at a swept pre-emption point of the first
+        twin_kinds = list(kinds) + ['badchunk_json', 'oversize_json', 'badchunk', 'm405']
+        for k in twin_kinds:
+            reqs = [(k, 'A'), (k, 'B')]
+            tr0 = execute(reqs, [0] * 5000, line_files=lf, tag='twin')
+            n0 = sum(1 for t in tr0['sched'] if t == 0) if len(tr0['sched']) < 400 else None
+            if n0 is None:
+                _, _, taken0 = L.run_threads([app, app], reqs, [0] * 5000, acc if acc.ok else None, lf)
+                n0 = sum(1 for t in taken0 if t == 0)
+            for a in range(1, n0 + 1, 3 if thorough else max(1, n0 // 36)):
+                execute(reqs, [0] * a + [1] * 5000 + [0] * 5000, line_files=lf, tag='twin')
     judge(chk, 'C08', traces, closure_known=False)
     chk.extra['assumptions'] = ['pre-emption happens at accessor calls (quick) and additionally at every source line of ombott/* (thorough)',
                                 'CPython: a thread switch inside one bytecode of the accessors is not modelled']
@@ -441,7 +453,7 @@ def run_c10(chk):
             seq = []
             for i in range(4):
                 ap = a if i % 2 == 0 else b
-                k = rng.choice(L.KINDS + ['badchunk', 'badchunk_json', 'badpath', 'm405'])
+                k = rng.choice(L.KINDS + ['badchunk', 'badchunk_json', 'badpath', 'm405', 'mutq', 'mutq'])
                 seq.append((lambda ap=ap, k=k, i=i: L.serve(ap, L.environ_for(k, 'S%d' % i))))
                 expect.append(solo(k, 'S%d' % i))
             reqs, apps = [seq], [a]
@@ -493,6 +505,25 @@ def run_c10(chk):
                 k2 = rng.choice(['plain', 'body', 'hdrs', 'raise'])
                 reqs.append([(k2, 'T2')])
                 apps.append(a)
+        elif arr == 'lazy_drain':
+            # the server drains a's streamed body only after b (or the default application) has served a request on the same thread
+            other = b if rng.random() < 0.5 else ombott.app
+            holder = {}
+
+            def act():
+                rec = {}
+
+                def sr(status, headers, exc_info=None):
+                    rec['status'], rec['headers'] = status, list(headers)
+                it = a(L.environ_for('latin', 'LZ'), sr)
+                mid = L.serve(other, L.environ_for('plain', 'MID')) if other is not ombott.app or getattr(ombott.app, '_verif_routes', False) else L.serve(b, L.environ_for('plain', 'MID'))
+                body = b''.join(it)
+                close = getattr(it, 'close', None)
+                if close:
+                    close()
+                return [[1, rec.get('status'), sorted(map(list, rec.get('headers', []))), body.decode('latin1')], mid]
+            reqs, apps = [[act]], [a]
+            flat = False
         elif arr == 'two_apps_threads':
             k1, k2 = rng.choice(L.KINDS), rng.choice(L.KINDS)
             reqs, apps = [[(k1, 'A')], [(k2, 'B')]], [a, b]
@@ -512,6 +543,9 @@ def run_c10(chk):
         ok = []
         if arr in ('alternate', 'create_between'):
             ok = [res[0][i] == expect[i] for i in range(len(expect))]
+        elif arr == 'lazy_drain':
+            got_a, got_mid = res[0][0]
+            ok = [got_a == solo('latin', 'LZ'), got_mid == solo('plain', 'MID')]
         elif arr in ('nested', 'copy', 'create_inside'):
             r_out, r_in = res[0][0]
             good = False
@@ -545,6 +579,7 @@ def run_c10(chk):
     for _ in range(40 if thorough else 8):
         run_arr('alternate', [])
         run_arr('create_between', [])
+        run_arr('lazy_drain', [])
     # arrangements that depend on the class-level closure variable
     for arr in ('nested', 'copy', 'create_inside'):
         for _ in range(6 if thorough else 2):
